@@ -77,6 +77,19 @@ pub fn generate(thorough: bool, seed: u64, em: &mut Emitter) {
         if reserved {
             gen::plant_reserved_name(r, &mut claims);
         }
+        let cnf = r.chance(1, 6);
+        // the caller's claims have a cnf member of their own while key binding is required (one bound case in four),
+        // sometimes even marked disclosable: no conformant SD-JWT can carry two cnf claims, so either the issuer
+        // refuses or what it issues must verify under the independent verifier like any other token
+        let own_cnf = cnf && !reserved && r.chance(1, 4);
+        let mut marks = marks;
+        if own_cnf {
+            claims.as_object_mut().unwrap().insert("cnf".to_string(), json!({"kty": "caller-supplied"}));
+            marks.retain(|p| !matches!(p.first(), Some(gen::Tok::Key(k)) if k == "cnf"));
+            if r.chance(1, 2) {
+                marks.push(vec![gen::Tok::Key("cnf".to_string())]);
+            }
+        }
         let k = marks.len();
         // sub-lists: all 2^k for k <= 6 (quick) / 8 (thorough), 48 sampled ones above, always with none and all
         let limit = if thorough { 8 } else { 6 };
@@ -92,7 +105,6 @@ pub fn generate(thorough: bool, seed: u64, em: &mut Emitter) {
                 subsets.push((0..k).map(|_| r.chance(1, 2)).collect());
             }
         }
-        let cnf = r.chance(1, 6);
         let mut expect = claims.clone();
         if cnf {
             let v = Jwk::from_value(crate::keys::rsa_jwk()).ok().map(|j| serde_json::to_value(&*j).unwrap()).unwrap_or(Value::Null);
@@ -103,7 +115,7 @@ pub fn generate(thorough: bool, seed: u64, em: &mut Emitter) {
             "marks": marks.iter().map(gen::tpath_json).collect::<Vec<_>>(),
             "decoy": if r.chance(1, 3) { json!(1 + r.below(6)) } else { Value::Null }, "cnf": cnf,
             "expect_claims": expect, "subsets": subsets, "nontrivial": reserved || marks.is_empty() || gen::marking_nontrivial(&marks),
-            "reserved_input": reserved,
+            "reserved_input": reserved, "own_cnf": own_cnf,
             "tag": if reserved { json!("reserved_name_in_claims") } else if marks.is_empty() { json!("nothing_disclosable") } else { Value::Null },
         }));
     }
